@@ -19,8 +19,11 @@ func normGob(tr interface{}) interface{} {
 	if !ok {
 		return tr
 	}
-	if _, ok := m["iri"]; ok {
-		return T{"iri": m["iri"]}
+	if s, ok := m["iri"]; ok {
+		if s == "" {
+			return nil
+		}
+		return T{"iri": s}
 	}
 	if l, ok := m["iris"]; ok {
 		if len(asList(l)) == 0 {
@@ -52,6 +55,9 @@ func normGob(tr interface{}) interface{} {
 		if nv := normGobField(v); nv != nil {
 			nf[name] = nv
 		}
+	}
+	if len(nf) == 0 {
+		return nil
 	}
 	return T{"t": m["t"], "ptr": true, "f": nf}
 }
